@@ -219,6 +219,46 @@ def main(argv):
                                 key="walk-long-base:" + ("leaves-subtree" if i == 2 else "items"))
                     break
 
+    # ---- sub-identifiers beyond 2^32-1 (the decoder accepts any length of base-128 digits): whatever such an agent replies, the
+    # OID STRINGS the walk yields never repeat, and each is the text of an OID the agent sent (C06_yielded_texts_distinct)
+    import re
+    U2 = {"a": BASE + [1], "g": BASE + [2 ** 32 + 1], "h": BASE + [2 ** 32 + 2], "j": BASE + [1, 2 ** 32], "k": BASE + [2 ** 64 + 5], "m": BASE + [2 ** 32 - 1],
+          "b": BASE + [2], "q": BASE + [2 ** 32], "r": BASE + [2 ** 35 + 1], "t": BASE + [5, 2 ** 63], "o": [1, 3, 6, 1, 3]}
+    bstreams = []
+    for _ in range(6000 if thorough else 1500):
+        k = rng.choice(["next", "bulk"])
+        names = sorted(rng.sample(list(U2), rng.randint(2, 6)), key=lambda nm: U2[nm]) if rng.random() < 0.7 else [rng.choice(list(U2)) for _x in range(rng.randint(2, 6))]
+        st, i = [], 0
+        while i < len(names):
+            n = 1 if k == "next" else rng.choice([1, 1, 2, 3])
+            st.append([(U2[nm], "i") for nm in names[i:i + n]])
+            i += n
+        bstreams.append((k, st))
+    blines = ["walk %s %s %s %s" % (k, base_hex, "-" if k == "next" else "10", " ".join(pdu_of(r).hex() for r in st)) for k, st in bstreams]
+    bm, br, bd = cd.run(blines)
+    for (k, st), ln, ml, rl, dl in zip(bstreams, blines, bm, br, bd):
+        c.count(ln, nontrivial=any(max(o) >= 2 ** 32 for rp in st for o, _k in rp))
+        sent = {ber.oid_text(o) for rp in st for o, _k in rp}
+        for prof, o in (("release", rl), ("debug", dl)):
+            if not codec.same(ml, o, cd.emap):
+                dis += 1
+                if not any(b.startswith("correspondence") for b in c.broken):
+                    c.broken = list(c.broken) + ["correspondence (sub-identifiers beyond 2^32-1) `%s`: model `%s` impl(%s) `%s`" % (ln[:300], ml[:150], prof, o[:150])]
+            if "PANIC" in o:
+                c.violation("walk step panics (%s build)" % prof, {"cmd": ln, "observed": o, "profile": prof}, key="walk-panic")
+                continue
+            keys = [bytes.fromhex(h).decode() for h in re.findall(r"\(str:([0-9a-f]+),", o)]
+            dup = [x for i, x in enumerate(keys) if x in keys[:i]]
+            if dup:
+                c.violation("%s walk under %s: the entry %s is reported twice (the agent sent %s) (%s build)"
+                            % (k, ber.oid_text(BASE), dup[0], [[ber.oid_text(oo) for oo, _k in rp] for rp in st], prof),
+                            {"cmd": ln, "observed": o, "profile": prof}, key="walk-reports-twice")
+            alien = [x for x in keys if x not in sent]
+            if alien and not dup:
+                c.violation("%s walk under %s yields %s, which the agent never sent (%s) (%s build)" % (k, ber.oid_text(BASE), alien[0], sorted(sent), prof),
+                            {"cmd": ln, "observed": o, "profile": prof}, key="walk-yields-alien-oid")
+    c.coverage["streams_with_subidentifiers_beyond_32_bits"] = len(bstreams)
+
     # ---- API level: the Python iterators on top, scripted agent, request cap turns non-termination into an outcome
     scs, exps = [], []
     sample = rng.sample(streams[:n_exh_next], 60 if thorough else 25) + rng.sample(streams[n_exh_next:], 120 if thorough else 40)
